@@ -46,6 +46,8 @@ class Norm:
         self.this_prefix = ''             # object the inlined method was called on ('' = the caller's own object)
         self.keep = set(keep)             # locals never replaced by their definition
         self.assume = assume or {}        # normalised atom -> truth value taken as given (case analysis)
+        self.val = {}                     # valuation: expression string -> concrete value / atom -> truth (case analysis)
+        self._vguard = set()
         self._in_assume = False
         self.accessors = accessors        # also read through field accessors `T f() const { return <expr over fields>; }`
 
@@ -240,7 +242,7 @@ class Norm:
         if 'cv' in n and isinstance(n['cv'], int):
             return n['cv']
         k = n['k']
-        if self.assume and not self._in_assume and _type(n) == 'bool' and k in ('CallExpr', 'CXXMemberCallExpr', 'DeclRefExpr', 'MemberExpr'):
+        if (self.assume or self.val) and not self._in_assume and _type(n) == 'bool' and k in ('CallExpr', 'CXXMemberCallExpr', 'DeclRefExpr', 'MemberExpr'):
             self._in_assume = True
             try:
                 at = self.atom(n)
@@ -270,7 +272,7 @@ class Norm:
                     if (a is not None and a != 0) or (b is not None and b != 0):
                         return 1
                     return 0 if a == 0 and b == 0 else None
-                if (a is None or b is None) and op in _CMP and self.assume and not self._in_assume:
+                if (a is None or b is None) and op in _CMP and (self.assume or self.val) and not self._in_assume:
                     self._in_assume = True
                     try:
                         at = self.atom(n)
@@ -295,6 +297,14 @@ class Norm:
                 if a is not None and t in ('engine::Color',):
                     return 1 - a
                 return None if a is None else int(not a)
+        if self.val and k in ('CallExpr', 'CXXMemberCallExpr', 'MemberExpr', 'ArraySubscriptExpr', 'DeclRefExpr') and n['i'] not in self._vguard:
+            self._vguard.add(n['i'])
+            try:
+                key = self.s(n)
+            finally:
+                self._vguard.discard(n['i'])
+            if key in self.val and isinstance(self.val[key], int):
+                return self.val[key]
         if k in ('CallExpr', 'CXXMemberCallExpr'):
             v = self._call_value(n) if k == 'CallExpr' else None
             if v is None:
@@ -329,6 +339,7 @@ class Norm:
             return None
         sub = Norm(callee, {q['name']: v for q, v in zip(callee.params, vals)}, self.inline)
         sub._depth = self._depth + 1
+        sub.val, sub.assume = self.val, self.assume
         for st in kids(callee.body):
             if st['k'] == 'ReturnStmt':
                 return sub.cval(kids(st)[0]) if kids(st) else None
@@ -534,6 +545,11 @@ class Norm:
 
     def atom(self, n, truth=True):
         at = self._atom(n, truth)
+        if self.val and at not in (TAUT, FALSE):
+            try:
+                return TAUT if atom_value(at, self.val) else FALSE
+            except Unknown:
+                pass
         if self.assume and at not in (TAUT, FALSE):
             if at in self.assume:
                 return TAUT if self.assume[at] else FALSE
